@@ -79,6 +79,7 @@ package types
 //@ (define-fun poHas ((s (Array enterprise.Key (Slice Int))) (id Int)) Bool (not (sl.nil (select s (kPO id)))))
 //@ (define-fun poGet ((s (Array enterprise.Key (Slice Int))) (id Int)) enterprise.EnterpriseUndPurchaseOrder (unmarshal.enterprise.EnterpriseUndPurchaseOrder (select s (kPO id))))
 //@ (define-fun poPut ((s (Array enterprise.Key (Slice Int))) (p enterprise.EnterpriseUndPurchaseOrder)) (Array enterprise.Key (Slice Int)) (store s (kPO (enterprise.EnterpriseUndPurchaseOrder.Id p)) (marshal.enterprise.EnterpriseUndPurchaseOrder p)))
+//@ (define-fun poBytes ((p enterprise.EnterpriseUndPurchaseOrder)) (Slice Int) (marshal.enterprise.EnterpriseUndPurchaseOrder p))
 //@ (define-fun poStatus ((s (Array enterprise.Key (Slice Int))) (id Int)) Int (enterprise.EnterpriseUndPurchaseOrder.Status (poGet s id)))
 //@ (define-fun raisedHas ((s (Array enterprise.Key (Slice Int))) (id Int)) Bool (not (sl.nil (select s (kRaised id)))))
 //@ (define-fun acceptedHas ((s (Array enterprise.Key (Slice Int))) (id Int)) Bool (not (sl.nil (select s (kAccepted id)))))
